@@ -399,7 +399,8 @@ class TlRegistrator:
         return zlib.crc32(schema.encode())
 
     def get_id(self, schema: str) -> bytes:
-        return self.crc32(self.clear(schema)).to_bytes(4, 'big')
+        # the id is the CRC-32 of the declaration in its canonical form: tokens separated by single spaces
+        return self.crc32(self.clear(' '.join(schema.split()))).to_bytes(4, 'big')
 
     def get_params(self, schema: str) -> dict:
         pass
